@@ -262,9 +262,16 @@ def c17_fold_layer(prop, tier, seed, out):
     execs = []
     for pi, (profile, runs, steps) in enumerate(plan):
         for i in range(runs): execs.append(sr.Exec(seed * 100000 + 70000 + pi * 1000 + i, steps, profile))
+    # MANIFEST reuse across reopens, grown past a 32 KiB log block (hundreds of edits appended to a reused descriptor)
+    for i in range(2 if quick else 8):
+        execs.append(sr.Exec(seed * 100000 + 79000 + i, 3500, 'deep', bits=0x800 | (0x002 if i % 2 else 0)))
     sr.run_campaign(exe, execs)
     lines = []
     for ex in execs:
+        if ex.rc == 4:
+            rd = c.replay_dir(prop, 'edit'); json.dump(dict(kind='seq', exec=ex.desc(), why='reopen after a clean close failed'), open(os.path.join(rd, 'replay.json'), 'w'))
+            out.violation('reopen after a clean close failed (the MANIFEST lcdb wrote cannot be replayed): %s' % ex.desc(), rd, dict(kind='reopen_failed'))
+            continue
         if ex.rc != 0:
             raise Broken('seq driver failed in C17 fold layer (exit %s); see C01' % ex.rc)
         try:
@@ -377,7 +384,7 @@ def table_case(exe, d, idx, ents, opts, rng, quick):
     out = [json.loads(l) for l in open(res)]
     built, opened, results = out[0], out[1], out[2:]
     line = dict(e='table', n=len(ents), interval=opts['restart'], opts=opts, open_rc=opened['rc'], blocks=[], seps=[], seeks=[], gets=[],
-                epos=[], euk=[], maxpos=0, scan=dict(n=0, fwd_ok=0, bwd_ok=0, st=-1), walk_bad=1, entries_equal=0, sorted=0, crc_ok=0, handles_tile=0, footer_ok=0, shared0=0, leveldb_equal=0, filter_ok=0)
+                gets2=[], epos=[], euk=[], maxpos=0, scan=dict(n=0, fwd_ok=0, bwd_ok=0, st=-1), walk_bad=1, entries_equal=0, sorted=0, crc_ok=0, handles_tile=0, footer_ok=0, shared0=0, leveldb_equal=0, filter_ok=0)
     data = open(tf, 'rb').read()
     try:
         t = sstable.read_table(data)
@@ -460,6 +467,25 @@ def table_case(exe, d, idx, ents, opts, rng, quick):
         elif kind == 'walk':
             line['walk_bad'] = r['bad']
     if not vok: line['entries_equal'] = 0
+    # the same file read by a reader configured with ANOTHER filter parameter (the table stores its own probe count)
+    line['gets2'] = []
+    if opts['bloom'] > 0 and keys:
+        spec2 = os.path.join(d, 't%d.spec2' % idx); res2 = os.path.join(d, 't%d.res2' % idx)
+        with open(spec2, 'w') as f:
+            f.write('%d %d %d %d %d\n' % (opts['block'], opts['restart'], opts['snappy'], 16 if opts['bloom'] != 16 else 6, opts['mmap']))
+            for k, vl, vs in ents: f.write('E %s %d %d\n' % (k.hex(), vl, vs))
+            f.write('TESTS\n')
+            for k in keys: f.write('get %s\n' % k.hex())
+        p2 = c.sh([exe, 'read', spec2, tf, res2], timeout=300)
+        if p2.returncode == 0:
+            out2 = [json.loads(l) for l in open(res2)]
+            for k, r in zip(keys, out2[1:]):
+                line['gets2'].append([ranks[ikey_cmp_key(k)], max(0, r['r'])])
+        else:
+            line['gets2'].append([0, -1])
+        for f in (spec2, res2):
+            try: os.unlink(f)
+            except OSError: pass
     for f in (spec, tf, res):
         try: os.unlink(f)
         except OSError: pass
